@@ -76,7 +76,8 @@ pub fn random_cone(rng: &mut Rng, kind: &str, room: usize, o: &GenOpts) -> Optio
         "Zero" => ConeT::ZeroConeT(rng.usize(if o.allow_empty_cones { 0 } else { 1 }, room.min(4))),
         "NN" => ConeT::NonnegativeConeT(rng.usize(if o.allow_empty_cones { 0 } else { 1 }, room.min(8))),
         "SOC" => {
-            let lo = if o.allow_empty_cones && rng.bool(0.1) { 1 } else { 2 };
+            // "empty or singleton cones" holds for every kind with a dimension argument: SOC(0) and SOC(1) too
+            let lo = if o.allow_empty_cones && rng.bool(0.1) { rng.usize(0, 1) } else { 2 };
             let d = *rng.choose(&[lo, 2, 3, 4, 5, 6, 8, 12]);
             ConeT::SecondOrderConeT(d.min(room.max(lo)))
         }
@@ -92,7 +93,7 @@ pub fn random_cone(rng: &mut Rng, kind: &str, room: usize, o: &GenOpts) -> Optio
         }
         #[cfg(feature = "sdp")]
         "PSD" => {
-            let lo = if o.allow_empty_cones && rng.bool(0.1) { 1 } else { 2 };
+            let lo = if o.allow_empty_cones && rng.bool(0.1) { rng.usize(0, 1) } else { 2 };
             ConeT::PSDTriangleConeT(rng.usize(lo, o.psd_max))
         }
         _ => return None,
